@@ -12,9 +12,11 @@ let int_of_n = function N0 -> 0 | Npos p -> int_of_pos p
 
 let step_of tok =
   match String.split_on_char '.' tok with
-  | op :: i :: _ ->
+  | op :: i :: rest ->
     let i = nat_of_int (int_of_string i) in
+    let k = match rest with _ :: k :: _ -> nat_of_int (int_of_string k) | _ -> O in
     (match op with
+     | "hu" -> SHBurst (i, k)
      | "ho" -> SHOpen i | "hb" -> SHBody i | "hr" -> SHRel i | "ha" | "hf" -> SHAbort i | "hx" -> SHRelAbort i | "hg" -> SHGet i
      | "wo" -> SWOpen i | "wb" -> SWBad i | "we" -> SWEarly i | "wc" -> SWCall i | "wr" -> SWRel i | "wl" -> SWClose i
      | "wa" | "wf" -> SWAbort i | "wg" -> SWGarbage i | "wx" -> SWCloseAbort i
@@ -26,7 +28,7 @@ let handle line =
   | mx :: mode :: toks ->
     let c = { c_max = n_of_int (int_of_string mx); c_http = (mode <> "ws"); c_ws = (mode <> "http") } in
     let obs = script_run (init c) (List.map step_of toks) in
-    let s o = Printf.sprintf "%s:%d:%d" (let st = int_of_n o.o_status in if st = 0 then "-" else string_of_int st)
+    let s o = Printf.sprintf "%s:%d:%d" (let st = int_of_n o.o_status in if st = 0 then "-" else if st >= 1000 then "b" ^ string_of_int (st - 1000) else string_of_int st)
         (int_of_n o.o_avail) (int_of_n o.o_handlers) in
     print_endline (String.concat " " (List.map s obs))
   | _ -> print_endline "?bad-line"
